@@ -184,6 +184,9 @@ pub struct SimCfg {
     pub max_hard_faults: u32,
     /// only files whose path contains one of these substrings receive I/O faults (empty = all sim files)
     pub fault_paths: Vec<String>,
+    /// truncation faults only on paths containing one of these substrings (empty = all)
+    #[serde(default)]
+    pub trunc_paths: Vec<String>,
     pub max_steps: u64,
     pub max_alloc_bytes: u64,
 }
@@ -203,6 +206,7 @@ impl Default for SimCfg {
             clock_tick_ns: 1_000,
             max_hard_faults: 1,
             fault_paths: vec![],
+            trunc_paths: vec![],
             max_steps: 3_000_000,
             max_alloc_bytes: 2 << 30,
         }
@@ -360,6 +364,7 @@ struct OpenFd {
     pos: usize,
     append: bool,
     limit: Option<usize>, // truncation fault: file appears to end here
+    broken: bool,         // sticky EIO: every further read fails
 }
 
 pub struct Sim {
@@ -1069,7 +1074,7 @@ pub fn hook_open(path: &[u8], flags: i32) -> Option<Result<i32, i32>> {
     }
     let acc = flags & libc::O_ACCMODE;
     let mut limit = None;
-    if acc == libc::O_RDONLY && s.fault_enabled(F_TRUNC_READ) && s.hard_faults < s.cfg.max_hard_faults && path_faultable(s, &p) {
+    if acc == libc::O_RDONLY && s.fault_enabled(F_TRUNC_READ) && s.hard_faults < s.cfg.max_hard_faults && path_faultable(s, &p) && (s.cfg.trunc_paths.is_empty() || s.cfg.trunc_paths.iter().any(|t| p.contains(t.as_str()))) {
         let len = s.files[&p].data.len() as u64;
         let rate = s.cfg.io_fault_rate;
         if len > 0 {
@@ -1080,7 +1085,7 @@ pub fn hook_open(path: &[u8], flags: i32) -> Option<Result<i32, i32>> {
             }
         }
     }
-    s.fds.insert(fd as i32, OpenFd { path: p, pos: 0, append: flags & libc::O_APPEND != 0, limit });
+    s.fds.insert(fd as i32, OpenFd { path: p, pos: 0, append: flags & libc::O_APPEND != 0, limit, broken: false });
     s.ev(me, Pt::Open, oidx, fd as u64 * 0);
     Some(Ok(fd as i32))
 }
@@ -1123,6 +1128,10 @@ pub fn hook_read(fd: i32, buf: &mut [u8]) -> Option<Result<usize, i32>> {
     if !s.quiet {
         s.sched_point(me, Pt::Read);
     }
+    if s.fds[&fd].broken {
+        s.ev(me, Pt::Read, idx, u64::MAX - 1);
+        return Some(Err(libc::EIO));
+    }
     let (path, pos, limit) = {
         let o = &s.fds[&fd];
         (o.path.clone(), o.pos, o.limit)
@@ -1154,7 +1163,13 @@ pub fn hook_read(fd: i32, buf: &mut [u8]) -> Option<Result<usize, i32>> {
                 return None;
             }
             let k = *r.pick(&kinds);
-            let arg = if k == "short_read" { if r.chance(0.3) { 1 } else { 1 + r.below(nn - 1) } } else { 0 };
+            let arg = if k == "short_read" {
+                if r.chance(0.3) { 1 } else { 1 + r.below(nn - 1) }
+            } else if k == "eio_read" {
+                r.below(2) // 1 = sticky: the medium stays unreadable
+            } else {
+                0
+            };
             Some((k, arg))
         });
         if let Some((k, arg)) = f {
@@ -1167,6 +1182,9 @@ pub fn hook_read(fd: i32, buf: &mut [u8]) -> Option<Result<usize, i32>> {
                 }
                 "eio_read" => {
                     s.hard_faults += 1;
+                    if arg == 1 {
+                        s.fds.get_mut(&fd).unwrap().broken = true;
+                    }
                     s.ev(me, Pt::Read, idx, u64::MAX - 1);
                     return Some(Err(libc::EIO));
                 }
